@@ -94,7 +94,9 @@ type genOpts struct {
 	unmapProb  float64
 	remapProb  float64
 	axes       int
-	axisKinds  []string // cc, cc2 (bidirectional), pitch_bend, key, key1 (one sided)
+	axisKinds  []string // cc, cc2 (bidirectional), pitch_bend, key, key1 (one sided), none
+	axisKindsPerMapping bool // draw the kind of every axis anew in every further mapping
+	edgeNotes  bool     // key-emulating axes may use notes next to 0 / 127
 	handlers   int
 }
 
@@ -205,8 +207,26 @@ func baseDesc(r *simrt.Rng, o genOpts) *model.Desc {
 				sa.DefaultDZ = fp([]float64{0, 0.05, 0.1, 0.15, 0.2, 0.25, 1.0 / 3, 0.5}[r.Intn(8)])
 			}
 			for ai, an := range axisNames {
-				kind := o.axisKinds[(ai+mi*0)%len(o.axisKinds)]
-				sa.Axes = append(sa.Axes, drawAxis(r, an, kind, ai))
+				kind := o.axisKinds[ai%len(o.axisKinds)]
+				if o.axisKindsPerMapping && mi > 0 {
+					kind = o.axisKinds[r.Intn(len(o.axisKinds))]
+				}
+				if kind == "none" {
+					continue
+				}
+				ax := drawAxis(r, an, kind, ai)
+				if o.edgeNotes && ax.Type == "key" && r.Chance(0.5) {
+					edge := []int{0, 1, 2, 3, 5, 122, 124, 125, 126, 127}
+					ax.Note = ip(edge[r.Intn(len(edge))])
+					if ax.NoteNeg != nil {
+						n := edge[r.Intn(len(edge))]
+						if n == *ax.Note {
+							n = 64
+						}
+						ax.NoteNeg = ip(n)
+					}
+				}
+				sa.Axes = append(sa.Axes, ax)
 			}
 			m.Analog = append(m.Analog, sa)
 		}
@@ -353,14 +373,9 @@ func (g *scriptGen) canPressAction(a string) bool {
 			pairHeld = true
 		}
 	}
-	if pairHeld {
-		return false
-	}
-	// pressing a would complete a pair: only allowed when no other action is held besides the partner
-	if p := partnerOf(a); p != "" && g.actDown[p] {
-		return len(g.actDown) == 1
-	}
-	return true
+	// an unrelated action may already be held when a pair is completed; only a third action pressed
+	// while a complete pair is held is outside the quantifier
+	return !pairHeld
 }
 
 func (g *scriptGen) pressAction(ak model.ActionKey) bool {
